@@ -1,10 +1,11 @@
 (* C17 — syntax-rules is sound where supported and always terminates.
    Model: Model/Transform.v (marwood/src/vm/transform.rs as written, with fix F15 in
    check_template_syntax; compile.rs:78-118 driver).  Specification: Model/SRSpec.v
-   (R7RS 4.3.2).  Only statements; proofs are in Proofs/TransformProofs.v.           *)
+   (R7RS 4.3.2).  Only statements; proofs are in Proofs/TransformProofs.v and
+   Proofs/ExpandProofs.v.                                                          *)
 From Coq Require Import String.
 From MW Require Import Model.Base Model.Datum Model.Parse Model.TransformDef Model.Transform Model.SRSpec
-  Proofs.TransformProofs.
+  Proofs.TransformProofs Proofs.ExpandProofs.
 Open Scope N_scope.
 
 (* ------------------------------------------------------------------ the property *)
@@ -28,13 +29,26 @@ Proof. reflexivity. Qed.
 
 Definition C17_full : Prop := forall d u, sound_on d u.      (* FALSE on the pinned and on the repaired tree: see the refutations *)
 
-(* OPEN (not proved; tied to the implementation by the differential check and the
-   Python oracle only): on the supported fragment the whole pipeline is sound. *)
-Definition C17_main_stmt : Prop := forall d u, supported d u = true -> sound_on d u.
+(* ------------------------------------------------------------------ the main theorems *)
+(* C17_main (formerly OPEN as C17_main_stmt): on the supported fragment (SRSpec.supported,
+   decidable: every rule of the transformer built by try_new is in S_pat / S_tmpl with no
+   pattern variable twice, the ellipsis is an identifier, and the use is in S_use for every
+   rule) the whole pipeline -- try_new, the rule loop, pattern_match, expand with the entry
+   point's fuel -- terminates without panic and returns a reported error or exactly the R7RS
+   expansion.  No further hypothesis.  Proofs/ExpandProofs.v: main_sound, composed from
+   define_total, first_matching_rule (hence match_sound_complete), build_shape (Pattern::build
+   records exactly the pattern variables, flagged when directly followed by the ellipsis),
+   smatch_shape and expand_sound. *)
+Theorem C17_main : forall d u, supported d u = true -> sound_on d u.
+Proof. exact main_sound. Qed.
+Print Assumptions C17_main.
 
-(* OPEN: expand on S_tmpl equals the specification's instantiation, within the fuel the
-   entry point hands it, and leaves every cursor reset. *)
-Definition C17_expand_sound_stmt : Prop :=
+(* C17_expand_sound (formerly OPEN as C17_expand_sound_stmt): expand on S_tmpl equals the
+   specification's instantiation, within the fuel the entry point hands it, and leaves every
+   cursor reset.  Proofs/ExpandProofs.v: ell_run (one `x ...` group: one item per round of
+   get_expanded_binding, then the cursor is reset), expand_sound_sized (all cursors None
+   between elements; fuel cell_size t * (length bindings + 2) suffices). *)
+Theorem C17_expand_sound :
   forall (pat : pattern) (ell : cell) (se : senv) (t : cell),
     is_symbol ell = true ->
     tmpl_ok (is_expanded_variable pat) ell false t = true ->
@@ -44,6 +58,22 @@ Definition C17_expand_sound_stmt : Prop :=
     (forall x l, slookup se x = Some (BMany l) -> exists fs, l = map BOne fs) ->
     exists c, sinst ell t se = SOk c /\
       expand ell pat (flat se) (expand_fuel t (flat se)) t (env_new pat) = Ok (Some c, env_new pat).
+Proof. exact expand_sound. Qed.
+Print Assumptions C17_expand_sound.
+
+(* the hypotheses of C17_expand_sound are exactly what a successful definition and match in
+   the supported fragment provide (used by C17_main) *)
+Theorem C17_selected_rule_facts : forall lits ell pat pk pd ud se,
+  is_symbol ell = true ->
+  build pd (mk_pattern (CPair pk pd) [] [] ell lits UNDERSCORE) = Ok pat ->
+  S_match lits ell pd ud = true -> no_dup (pvars lits ell pd) = true ->
+  smatch lits ell pd ud = Some se ->
+  (forall x, is_symbol x = true -> is_variable pat x = true <-> exists b, slookup se x = Some b) /\
+  (forall x, is_symbol x = true -> is_expanded_variable pat x = true <-> exists l, slookup se x = Some (BMany l)) /\
+  no_dup (map fst se) = true /\
+  (forall x l, slookup se x = Some (BMany l) -> exists fs, l = map BOne fs).
+Proof. exact selected_rule_facts. Qed.
+Print Assumptions C17_selected_rule_facts.
 
 (* ------------------------------------------------------------------ proved *)
 (* definition-time analysis terminates (it has no fuel) and never panics, for every datum *)
@@ -153,12 +183,36 @@ Proof. exact f15_rejected. Qed.
 Print Assumptions C17_f15_rejected_at_definition.
 
 (* ------------------------------------------------------------------ non-vacuity *)
+(* the hypothesis of C17_main is satisfiable on a three-rule transformer with literals, a
+   nested pattern, a fixed tail after the ellipsis and ellipsis templates *)
 Example C17_supported_nonvacuous :
   let d := defn "(else) ((_ a) '(one a)) ((_ a b ... else (c d)) '(d (a) (b ...) c b ...)) ((_ x ...) '(x ...))" in
   let u := rd "(m 1 2 3 else (4 5))" in
   supported d u = true /\ sound_on d u /\
   (exists tr, transform_try_new d = Ok tr /\ transform_apply tr u = Ok (rd "'(5 (1) (2 3) 4 2 3)")).
 Proof. exact supported_example. Qed.
+
+(* the hypotheses of C17_expand_sound hold (and its conclusion is the R7RS expansion) for the
+   rule selected for a use of a transformer whose template has a nested list and two ellipsis
+   groups, one variable expanded twice *)
+Example C17_expand_sound_nonvacuous :
+  let d := defn "(else) ((_ a b ... else (c d)) '(d (a) (b ...) c b ...))" in
+  let u := rd "(m 1 2 3 else (4 5))" in
+  exists tr pat tmpl se,
+    transform_try_new d = Ok tr /\
+    spec_select (tr_literals tr) (tr_ellipsis tr) (tr_rules tr) u = Some (pat, tmpl, se) /\
+    tmpl = rd "'(d (a) (b ...) c b ...)" /\
+    se = [(rd "a", BOne (rd "1")); (rd "b", BMany [BOne (rd "2"); BOne (rd "3")]);
+          (rd "c", BOne (rd "4")); (rd "d", BOne (rd "5"))] /\
+    is_symbol (tr_ellipsis tr) = true /\
+    tmpl_ok (is_expanded_variable pat) (tr_ellipsis tr) false tmpl = true /\
+    (forall x, is_symbol x = true -> is_variable pat x = true <-> exists b, slookup se x = Some b) /\
+    (forall x, is_symbol x = true -> is_expanded_variable pat x = true <-> exists l, slookup se x = Some (BMany l)) /\
+    no_dup (map fst se) = true /\
+    (forall x l, slookup se x = Some (BMany l) -> exists fs, l = map BOne fs) /\
+    expand (tr_ellipsis tr) pat (flat se) (expand_fuel tmpl (flat se)) tmpl (env_new pat) =
+      Ok (Some (rd "'(5 (1) (2 3) 4 2 3)"), env_new pat).
+Proof. exact expand_sound_example. Qed.
 
 Example C17_S_match_nonvacuous :
   S_match [CSym (S_ "else")] DOTS (rd "(a b ... else (c d))") (rd "(1 2 3 else (4 5))") = true /\
